@@ -20,6 +20,9 @@ def main(argv):
     if argv[0] == "--determinism":
         from . import st_determinism
         return st_determinism.main(argv[1:])
+    if argv[0] == "--digests":
+        from . import st_determinism
+        return st_determinism.child(argv[1:])
     if argv[0] == "--mutants":
         from . import st_mutants
         return st_mutants.main(argv[1:])
